@@ -22,6 +22,12 @@ CHECKS = {
          "Exploration of histories over {PUBLISH(QoS2,id,DUP), PUBREL(id)} with re-deliveries and identifier reuse; reference model = set of unreleased identifiers; oracle = stream items equal the model's distinct messages and every re-delivery is still answered with PUBREC."),
  "C10": ("exploration", "3.C10", "seeded deterministic simulation: Receive Maximum histories + quiescent probe (free+1 publishes) against a wire-level counter model",
          "Exploration: R in {1..12, absent}, bursts, every failing completion kind, then at quiescence exactly `free` publishes must be accepted and one refused; plus a broker-view safety counter and a serial-order-impossibility test for QuotaExceeded."),
+ "C03": ("exploration", "3.C03", "deterministic simulation, differential oracle: chunked delivery vs one read per packet; systematic composition sweeps (all 2^(n-1) compositions of short streams, every cut position, 512/1024 alignments) + seeded random chunkings; both arithmetic profiles",
+         "Exploration with bounded systematic sweeps inside the simulator: every composition of short inbound streams (connect and run phase), every single cut and every cut pair around the 512/1024-byte buffer steps of a long multi-packet stream, fixed chunk sizes, 3-byte (thorough: 4-byte) remaining lengths, readers that return Pending between chunks and readers that scribble the unfilled buffer tail; the observable trace must equal the packet-per-read reference, no stall with unread bytes, no early end-of-stream. Run with overflow checks on and off."),
+ "C16": ("exploration", "3.C16", "deterministic simulation, differential oracle over polling disciplines: wake-only vs sweep (every task polled after every step) vs spurious polls at seeded positions; quiescence sweep probe",
+         "Exploration: each seeded scenario is executed three times - wake-only, wake-only plus a sweep of all non-woken tasks after every step, wake-only plus spurious polls at random positions - and wire bytes, results and stream items must be identical; in the wake-only run a final sweep must change nothing and no quiescent point may leave readable input unconsumed."),
+ "C04": ("fault_enumeration", "3.C04", "deterministic simulation with fault injection: hostile scripted broker (byte soup, 12 mutation kinds of valid packets, every packet type at every phase) + transport faults; systematic truncation / fault-offset sweeps; both arithmetic profiles",
+         "Fault enumeration: systematically, every truncation of sampled valid packets of every server packet type (both phases), remaining length +-1, every packet type as first response and while running, EOF / read error at every inbound byte offset and write error / zero-length write at every outbound byte offset of a base scenario; plus seeded random placement of hostile bytes and faults inside conformant workloads with in-flight state. Oracle: no panic in any poll (documented assertion exempted), no stall with unread input, no busy loop, connect()/run() returns once the transport has ended. Run with overflow checks on and off."),
  "C13": ("fault_enumeration", "3.C13", "seeded deterministic simulation with fault injection: every terminating cause (user/server DISCONNECT, EOF, read/write error, handles dropped, undecodable input) injected at random session states; connect()/authorize() outcomes",
          "Fault enumeration by seeded search: one terminating cause per run (kind enumerated by the generator, position random over conformant histories with operations outstanding, streams open, mid-QoS 2), oracle demands the exact documented variant and that run() is still pending when no cause occurred; faults fired are counted per kind in the evidence."),
  "C14": ("fault_enumeration", "3.C14", "seeded deterministic simulation: crash-point injection (DropContext after a random prefix of conformant/inbound histories), wake-only executor, hang detection at quiescence",
